@@ -9,14 +9,16 @@ theorem verdict : (classify Generated.factsC03).Sound (Holds (cfgOf Generated.fa
 #eval IO.println (verdictLine "C03" (classify Generated.factsC03))
 #print axioms verdict
 #print axioms compact_preserves
+#print axioms compact_preserves_torn
+#print axioms compaction_anywhere
 #print axioms compact_stale_temp_resurrects
 #print axioms not_preserves_of_stale
 #print axioms compact_crash_atomic
 #print axioms compact_no_fsync_loses
 #print axioms C03_partial
 #print axioms holds_of_good
-#print axioms Hv.Storage.loadFile_clean
-#print axioms Hv.Storage.addManyW_spec
-#print axioms Hv.Storage.atomic_of_shape
+#print axioms Hv.BlockStore.loadFile_clean
+#print axioms Hv.BlockStore.addManyW_spec
+#print axioms Hv.BlockStore.atomic_of_shape
 
 end Hv.C03
